@@ -12,7 +12,7 @@ Definition self_describing (h : ehdr) (e : list N) (ty : N) : Prop :=
 
 Fixpoint walk_result (off : nat) (es : list (list N)) (tys : list N) : list (N * nat * nat) :=
   match es, tys with
-  | e :: es', t :: ts' => (t, off, length e) :: walk_result (off + length e) es' ts'
+  | e :: es', t :: ts' => (t, off, length e) :: walk_result (length e + off) es' ts'
   | _, _ => []
   end.
 
@@ -31,11 +31,11 @@ Proof.
     change ((x :: e') ++ concat es) with (x :: (e' ++ concat es)) in *.
     cbn [walk]. rewrite Hrd.
     assert (E0 : Nat.eqb (length (x :: e')) 0 = false) by (apply Nat.eqb_neq; cbn [length]; lia).
-    assert (E1 : Nat.ltb (length (x :: e' ++ concat es)) (length (x :: e')) = false)
-      by (apply Nat.ltb_ge; cbn [length]; rewrite app_length; lia).
+    assert (E1 : negb (Nat.eqb (length (firstn (length (x :: e')) (x :: e' ++ concat es))) (length (x :: e'))) = false).
+    { change (x :: e' ++ concat es) with ((x :: e') ++ concat es). rewrite firstn_app_exact. now rewrite Nat.eqb_refl. }
     rewrite E0, E1. cbn [orb].
     change (x :: e' ++ concat es) with ((x :: e') ++ concat es). rewrite skipn_app_exact.
-    rewrite (IH ts (off + length (x :: e'))%nat f Hrest) by lia.
+    rewrite (IH ts (length (x :: e') + off)%nat f Hrest) by lia.
     cbn [walk_result]. reflexivity.
 Qed.
 
